@@ -134,7 +134,31 @@ def r03_6(ctx):
         rep.check(ok, "R03.6", astq.loc(fi), f"{fi.key}::R03.6::{'H' if have_H else 'noH'}{'A' if have_A else ''}",
                   f"zero-length query returns `{out}` (tree searches: {len(r['loc_calls'])}); every slot must be zero",
                   "zeros, no tree search")
-    ctx.floor("R03.6", 3)
+    # shape of the zero Levy area: the normal path treats a sample shape with fewer than two axes as batch-only (Levy
+    # area = zeros of the sample shape) and otherwise returns (*size, size[-1]); the zero-length arm must agree
+    fi = model.func(BI, "BrownianInterval.__call__")
+
+    class LowRank(bk.BrownianHooks):
+        def tensor_method(self, interp, recv, name, args, kwargs, node, f2):
+            if name in ("ndimension", "dim"):
+                return Fraction(1)
+            return bk.BrownianHooks.tensor_method(self, interp, recv, name, args, kwargs, node, f2)
+    low = bk.eval_davie_foster(model, "davie", LowRank())
+    if not (isinstance(low["A"], (Rat, Fraction, int)) and Rat.lift(low["A"]).is_zero()):
+        raise AnalysisError("for a sample shape with fewer than two axes the Levy-area approximation is no longer "
+                            "zeros_like(W): the shape convention this rule compares against has changed", where=astq.loc(low["fi"]))
+    for size in ((), (Fraction(3),), (Fraction(2), Fraction(3)), (Fraction(2), Fraction(3), Fraction(4))):
+        r = bk.eval_call(model, 2, True, True, zero_length=True, return_U=True, return_A=True, size=size)
+        sizes = [tuple(a[0]) if a and isinstance(a[0], (tuple, list)) else None for a, k, n in r["hooks"].zeros_calls]
+        want_a = tuple(size) if len(size) < 2 else tuple(size) + tuple(size[-1:])
+        ok = len(sizes) == 3 and sizes[0] == tuple(size) and sizes[1] == tuple(size) and sizes[2] == want_a
+        shown = [tuple(int(x) for x in s_) if s_ is not None else None for s_ in sizes]
+        rep.check(ok, "R03.6", astq.loc(fi), f"{fi.key}::R03.6::zero-shapes::size={tuple(int(x) for x in size)}",
+                  f"for sample shape {tuple(int(x) for x in size)} a zero-length query builds zeros of shapes {shown} for (W, H, A); "
+                  f"a query of positive length returns A of shape {tuple(int(x) for x in want_a)} there (fewer than two axes: "
+                  f"the sample shape itself), so results of the two kinds of query cannot be combined",
+                  "same shapes as a query of positive length")
+    ctx.floor("R03.6", 7)
 
 
 def r03_7(ctx):
